@@ -69,3 +69,17 @@ Example c10_example :
                                              GBatch [ULost false]]))
   = [[]; []; [8]; [4; 6; 5]; [7]; []]%Z.
 Proof. vm_compute. reflexivity. Qed.
+
+(* ---- the tie to the source text --------------------------------------------------------------------
+   gen/GenGatewayFn.v is emitted on every run from the Python AST of Gateway.reset_received /
+   error_received / connection_lost / eof_received / close / _reset_cleanup (bellows/uart.py) and of
+   EZSP.enter_failed_state / connection_lost / close / stop_ezsp (bellows/ezsp/__init__.py).  The
+   synchronous handlers of the gateway model used by every theorem above ([handle_up], [ezsp_close],
+   [enter_failed]) change the same fields and make the same calls in the same order. *)
+Require Import BV.gen.GenGatewayFn BV.proofs.GatewaySrc_proofs.
+Theorem c10_source_upcalls : forall st u,
+  same_as (fst (handle_up st u)) (snd (handle_up st u)) st (py_up (gabs st) u).
+Proof. exact src_handle_up. Qed.
+Theorem c10_source_close : forall st,
+  same_as (fst (ezsp_close st)) (snd (ezsp_close st)) st (py_EZSP_close_k (gabs st)).
+Proof. exact src_ezsp_close. Qed.
